@@ -53,8 +53,13 @@ SampleStep ==
     /\ More /\ E.e = "Sample"
     /\ Judge(<< <<"NoReseedToUsedState", SeedsOK(E.seeds)>>,
                 \* its own variates: no earlier sample of this run has the same values or started from the same state
-                <<"NoSharedVariates", \A i \in 1..Len(samples) : samples[i].vh # E.vh /\ ((Consumes(E) /\ Consumes(samples[i])) => samples[i].fp0 # E.fp0)>>,
-                <<"PreDrawnOnce", \A i \in 1..Len(samples) : RowsOf(samples[i]) \cap RowsOf(E) = {}>> >>)
+                \* (equal values that come from one and the same pre-drawn row are the PreDrawnOnce violation, reported there)
+                <<"NoSharedVariates", \A i \in 1..Len(samples) :
+                      /\ (samples[i].vh # E.vh \/ RowsOf(samples[i]) \cap RowsOf(E) # {})
+                      /\ ((Consumes(E) /\ Consumes(samples[i])) => samples[i].fp0 # E.fp0)>>,
+                <<"PreDrawnOnce", \A i \in 1..Len(samples) : RowsOf(samples[i]) \cap RowsOf(E) = {}>>,
+                \* the sample consumed by the statistics is the one that was simulated (values unchanged on the way)
+                <<"SampleArrivesAsSimulated", E.vh = E.vh_sim>> >>)
     /\ samples' = Append(samples, E)
     /\ starts' = IF Consumes(E) THEN starts \cup {E.fp0} ELSE starts
     /\ ln' = ln + 1 /\ UNCHANGED <<tid, fin, run, prev>>
